@@ -483,7 +483,7 @@ example :
 
 /-! ## liveness, the closed loop (client + network + server), whole runs
 
-  * liveness ("never neither once the network is quiet"): `concludes_when_quiet_partial`;
+  * liveness ("never neither once the network is quiet"): `never_neither` (full), `concludes_when_quiet_partial` (= 1);
   * side condition D2 proved for the server model: `server_one_response_message`;
   * client, network and server composed (`Sys`): `exactly_once_closed_loop_partial` (all personalities that answer with
     an ACK or a CON), `exactly_once_piggybacked` (timed argument: delays < ACK_TIMEOUT ⇒ no late copy; no `NoLate`);
@@ -625,7 +625,7 @@ theorem exchange_phase {req r : Dgram} (X : Exchange req r) (c0 : Client) (hidle
     in which the network is quiet and the clock runs (`ticks ts`: at least 1 + MAX_RETRANSMIT timer calls, each at or
     after the deadline then pending, `TimerRuns`), the request has concluded exactly once and the layer is idle.
     The schedules the fairness hypothesis excludes are exactly D5 (empty ACK delivered, every copy of the separate
-    response lost: `d5_neither_witness`).  Full statement wanted: the same without `NoLate`, with conclusion ≥ 1. -/
+    response lost: `d5_neither_witness`).  The full-strength form (no `NoLate`, conclusion ≥ 1) is `never_neither` below. -/
 theorem concludes_when_quiet_partial {req r : Dgram} (X : Exchange req r) (c0 : Client) (hidle : c0.L = Idle)
     (hfresh : fresh c0 r) (now0 T : Nat) (es : List CEvent) (hes : ∀ e ∈ es, ExEv req r e)
     (hlate : NoLate r (c0.appSend now0 req T).1 es)
@@ -1473,5 +1473,76 @@ example :
     replies (Client.run {} (pre ++ .rx 5500 (wRsp 5001) true :: [.tick 6000])).2 = [5001, 5001] ∧
     (handlerCalls (Client.run {} (pre ++ .rx 5500 (wRsp 5001) true :: [.tick 6000])).2).length = 1 := by
   refine ⟨Or.inl rfl, by decide, by decide, by decide, by decide⟩
+
+/-! ### liveness at full strength -/
+
+/-- a schedule either has no late copy of the response, or it has a prefix without one at whose end the client has
+    already called the NACK handler -/
+theorem noLate_or_nacked (r : Dgram) : ∀ (es : List CEvent) (c : Client),
+    NoLate r c es ∨ ∃ es1 es2, es = es1 ++ es2 ∧ NoLate r c es1 ∧ 1 ≤ nNack (Client.run c es1).2 := by
+  intro es
+  induction es with
+  | nil => intro c; exact Or.inl trivial
+  | cons e es ih =>
+    intro c
+    by_cases hn : nNack (c.step e).2 > 0
+    · right
+      refine ⟨[e], es, rfl, ⟨(fun _ e' he' => by cases he'), trivial⟩, ?_⟩
+      rw [Client.run_cons]; simp only [nNack_append]; omega
+    · rcases ih (c.step e).1 with h | ⟨es1, es2, h1, h2, h3⟩
+      · exact Or.inl ⟨fun h' => absurd h' hn, h⟩
+      · right
+        refine ⟨e :: es1, es2, by rw [h1]; rfl, ⟨fun h' => absurd h' hn, h2⟩, ?_⟩
+        rw [Client.run_cons]; simp only [nNack_append]; omega
+
+/-- **never neither once the network is quiet** (liveness, full strength: no `NoLate`, no hypothesis on the server).
+    For EVERY schedule `es` of time steps and arrivals of copies of the empty ACK and of the response message that is
+    FAIR — a copy of the response is delivered (a request copy and a response copy got through), or no copy of the
+    empty ACK is delivered (nothing stops the retransmissions: MAX_RETRANSMIT is exhausted) — and every continuation in
+    which the network is quiet and the clock runs (`ticks ts`, at least 1 + MAX_RETRANSMIT timer calls, each at or
+    after the deadline then pending), the request HAS concluded: by the response handler or by the NACK handler. -/
+theorem never_neither {req r : Dgram} (X : Exchange req r) (c0 : Client) (hidle : c0.L = Idle)
+    (hfresh : fresh c0 r) (now0 T : Nat) (es : List CEvent) (hes : ∀ e ∈ es, ExEv req r e)
+    (hfair : (∃ e ∈ es, isRsp r e) ∨ (∀ e ∈ es, ¬ isEAck req e))
+    (ts : List Nat) (hlen : 1 + maxRetransmit ≤ ts.length)
+    (hts : TimerRuns (Client.run c0 (.appSend now0 req T :: es)).1 ts) :
+    1 ≤ nRsp (Client.run c0 (.appSend now0 req T :: (es ++ ticks ts))).2 +
+        nNack (Client.run c0 (.appSend now0 req T :: (es ++ ticks ts))).2 := by
+  rcases noLate_or_nacked r es (c0.appSend now0 req T).1 with h | ⟨es1, es2, h1, _, h3⟩
+  · have := (concludes_when_quiet_partial X c0 hidle hfresh now0 T es hes h hfair ts hlen hts).1
+    omega
+  · subst h1
+    have happ : (CEvent.appSend now0 req T :: (es1 ++ es2 ++ ticks ts)) =
+        (CEvent.appSend now0 req T :: es1) ++ (es2 ++ ticks ts) := by simp
+    rw [happ, Client.run_append]
+    simp only [nNack_append]
+    have : nNack (Client.run c0 (.appSend now0 req T :: es1)).2 =
+        nNack (c0.appSend now0 req T).2 + nNack (Client.run (c0.appSend now0 req T).1 es1).2 := by
+      rw [Client.run_cons]; simp only [Client.step, nNack_append]
+    omega
+
+/-- `never_neither`: the NACK came, then a late copy of the response (outside `NoLate`): still concluded (twice — the
+    open finding — but not "neither") -/
+example :
+    let es : List CEvent := [.tick 3000, .tick 7000, .tick 15000, .tick 31000, .tick 63000, .rx 76001 (wRsp 5001) true]
+    let ts : List Nat := [80000, 80001, 80002, 80003, 80004]
+    (∀ e ∈ es, ExEv wReq (wRsp 5001) e) ∧ (∃ e ∈ es, isRsp (wRsp 5001) e) ∧
+    TimerRuns (Client.run {} (.appSend 1000 wReq 2000 :: es)).1 ts ∧
+    ¬ NoLate (wRsp 5001) (({} : Client).appSend 1000 wReq 2000).1 es ∧
+    1 ≤ nRsp (Client.run {} (.appSend 1000 wReq 2000 :: (es ++ ticks ts))).2 := by
+  refine ⟨?_, ⟨_, List.mem_cons_of_mem _ (List.mem_cons_of_mem _ (List.mem_cons_of_mem _ (List.mem_cons_of_mem _
+    (List.mem_cons_of_mem _ (List.mem_cons_self ..))))), rfl⟩, by decide, ?_, by decide⟩
+  · intro e he
+    simp only [List.mem_cons, List.mem_nil_iff, or_false] at he
+    rcases he with rfl | rfl | rfl | rfl | rfl | rfl
+    · exact .tick _
+    · exact .tick _
+    · exact .tick _
+    · exact .tick _
+    · exact .tick _
+    · exact .response _ _
+  · intro h
+    have h5 := h.2.2.2.2.1
+    exact h5 (by decide) _ (List.mem_cons_self ..) rfl
 
 end Coap.C07
